@@ -43,10 +43,10 @@ def run(ctx):
                 "(a message size / fragmentation / key, as receiver and as sender) and WsFrameHs (a handshake); "
                 "non-trivial = non-empty stream; distinct = distinct case lines")
     args = ["--case-timeout-ms", "15000", "--batch", "400"]
-    c = _cases(ctx, "WsFrameHs", "MC_WsFrameHs_" + tier, "c11-hs.cases", ctx.pick(300, 1200), xss="512m")
+    c = _cases(ctx, "WsFrameHs", "MC_WsFrameHs_" + tier, "c11-hs.cases", ctx.pick(300, 1200), xss="512m", must_cover=False)
     ctx.replay(rep, c, label="R/WsFrameHs", args=args, timeout=ctx.pick(300, 1200), env=ENV, jobs=4)
     os.unlink(c)
-    c = _cases(ctx, "WsFrameSizes", "MC_WsFrameSizes_" + tier, "c11-size.cases", ctx.pick(300, 1200))
+    c = _cases(ctx, "WsFrameSizes", "MC_WsFrameSizes_" + tier, "c11-size.cases", ctx.pick(300, 1200), must_cover=False)
     ctx.replay(rep, c, label="R/WsFrameSizes", args=args, timeout=ctx.pick(600, 2400), env=ENV)
     os.unlink(c)
     c = _cases(ctx, "WsFrameStreams", "MC_WsFrameStreams_" + tier, "c11-ws.cases", ctx.pick(600, 3000))
